@@ -18,6 +18,11 @@ LEVEL = "other"
 
 
 def body(ck, F, cfg):
+    # "a changed coefficient or constant in a constraint" must change the statement: the arithmetic that builds the
+    # constraint from the user's expression must keep every coefficient (C15's R15.1 operator rules by reference)
+    from . import C15
+
+    C15.body(ck, F, cfg, parts=("ops",))
     ref = SC.reference_schedule()
     rv, pv_ = SC.verifier_schedule(F)
     rp, pp_ = SC.prover_schedule(F)
